@@ -9,6 +9,8 @@ from __future__ import annotations
 
 import json
 import re
+import shutil
+import subprocess
 from pathlib import Path
 
 from harness import coq
@@ -20,7 +22,7 @@ PROP = "C05"
 HEADER = ("From TL Require Import Lib.Base Lib.GenTypes Model.ConfigTypes Gen.ConfigGen Model.Config Model.ConfigRun Actual.ConfigActual.\n"
           "From Coq Require Import ZArith.\n")
 UNPARSABLE = "UNPARSABLE"
-EXT = {"python": ".py", "typescript": ".ts", "rust": ".rs"}
+EXT = {"python": ".py", "typescript": ".ts", "javascript": ".js", "rust": ".rs"}
 LANGS = ["python", "typescript", "javascript", "rust"]
 
 
@@ -34,9 +36,9 @@ def actual_flags() -> list[str]:
 # ------------------------------------------------------------------ units (documentation side of the generator)
 # limits: (option, metric, direction) - direction +1: a larger value is more permissive (max_*), -1: min_*
 UNITS = {
-    "nesting": dict(cmd="nesting", prefix="nesting.", langs=["python", "typescript", "rust"], limits=[("max_nesting_depth", "depth", +1)],
+    "nesting": dict(cmd="nesting", prefix="nesting.", langs=["python", "typescript", "javascript", "rust"], limits=[("max_nesting_depth", "depth", +1)],
                     lang_over=["max_nesting_depth"], cli={"max_nesting_depth": "--max-depth"}, guarded=["max_nesting_depth"]),
-    "srp": dict(cmd="srp", prefix="srp.", langs=["python"], limits=[("max_methods", "methods", +1)], lang_over=["max_methods"],
+    "srp": dict(cmd="srp", prefix="srp.", langs=["python", "typescript"], limits=[("max_methods", "methods", +1)], lang_over=["max_methods"],
                 cli={"max_methods": "--max-methods"}, guarded=["max_methods"], ignore=True),
     "dry": dict(cmd="dry", prefix="dry.", langs=["python"], limits=[("min_duplicate_lines", "dup_lines", -1)], lang_over=["min_duplicate_lines"],
                 cli={"min_duplicate_lines": "--min-lines"}, guarded=["min_duplicate_lines"], enabled_default=False, any_count=True,
@@ -81,8 +83,8 @@ def render_source(unit: str, lang: str, m: dict) -> dict:
             lines.append("    return a")
             return {name: "\n".join(lines) + "\n"}
         n_if = d - 1  # TypeScript / Rust analyzers start the body at depth 1
-        if lang == "typescript":
-            lines = ["function f(a: number): number {"]
+        if lang in ("typescript", "javascript"):
+            lines = ["function f(a: number): number {" if lang == "typescript" else "function f(a) {"]
             for i in range(n_if):
                 lines.append("    " * (i + 1) + f"if (a > {i}) {{")
             lines.append("    " * (n_if + 1) + "a = a + 1;")
@@ -98,6 +100,8 @@ def render_source(unit: str, lang: str, m: dict) -> dict:
             lines.append("    " * (i + 1) + "}")
         lines += ["    a", "}"]
         return {name: "\n".join(lines) + "\n"}
+    if unit == "srp" and lang == "typescript":
+        return {name: "class Widget {\n" + "".join(f"  m{i}() {{ return {i}; }}\n" for i in range(m["methods"])) + "}\n"}
     if unit == "srp":
         return {name: "class Widget:\n" + "".join(f"    def m{i}(self):\n        return {i}\n\n" for i in range(m["methods"]))}
     if unit == "dry":
@@ -321,7 +325,57 @@ def class_flags_term(case) -> str:
     return coq.coq_list([coq.coq_string(f) for f in class_flags(case)])
 
 
-def judge(cases, impls, workdir: Path, per_shard=30):
+def _run_shard_th(args):
+    path, th = args
+    p = subprocess.run(["timeout", "600", "coqc", "-Q", str(th), "TL", "-w", "-notation-overridden,-abstract-large-number", str(path)],
+                       capture_output=True, text=True, cwd=str(path.parent))
+    return p.returncode, p.stdout, p.stderr
+
+
+def eval_shards_th(workdir: Path, shards: list[str], th: Path):
+    from concurrent.futures import ThreadPoolExecutor
+    workdir.mkdir(parents=True, exist_ok=True)
+    jobs = []
+    for i, body in enumerate(shards):
+        f = workdir / f"cases_{i}.v"
+        f.write_text(HEADER + "\n" + body + "\n")
+        jobs.append((f, th))
+    with ThreadPoolExecutor(max_workers=12) as ex:
+        outs = list(ex.map(_run_shard_th, jobs))
+    res = []
+    for (rc, so, se), (f, _) in zip(outs, jobs):
+        if rc != 0:
+            raise RuntimeError(f"coqc failed on {f.name} (rc={rc}): {se[-1500:]}")
+        res.append(coq.parse_nat_lists(so))
+    return res
+
+
+def recorded_layer_theories(dst: Path) -> Path | None:
+    """When the current generated layer (or the model on top of it) no longer builds, the model can still be run with the generated
+    layer recorded for the unchanged tree (coq/Gen.expected/ConfigGen.v.txt).  This discharges nothing (the run is already failed by
+    the broken obligation); it only lets the search exhibit a concrete input on which the changed implementation departs from
+    the specification."""
+    snap = coq.COQ / "Gen.expected" / "ConfigGen.v.txt"
+    if not snap.exists():
+        return None
+    th = dst / "theories"
+    for sub in ("Lib", "Model", "Gen", "Actual"):
+        (th / sub).mkdir(parents=True, exist_ok=True)
+    for f in (coq.TH / "Lib").glob("*.vo"):
+        shutil.copy(f, th / "Lib" / f.name)
+    (th / "Gen" / "ConfigGen.v").write_text(snap.read_text())
+    order = [("Model", "ConfigTypes.v"), ("Gen", "ConfigGen.v"), ("Model", "Config.v"), ("Model", "ConfigRun.v"), ("Actual", "ConfigActual.v")]
+    for sub, name in order:
+        if sub != "Gen":
+            shutil.copy(coq.TH / sub / name, th / sub / name)
+        p = subprocess.run(["timeout", "300", "coqc", "-Q", str(th), "TL", "-w", "-notation-overridden", str(th / sub / name)],
+                           capture_output=True, text=True, cwd=str(dst))
+        if p.returncode != 0:
+            return None
+    return th
+
+
+def judge(cases, impls, workdir: Path, per_shard=30, th: Path | None = None):
     shards, index = [], []
     todo = [j for j in range(len(cases)) if "error" not in impls[j]]
     for s in range(0, len(todo), per_shard):
@@ -329,7 +383,7 @@ def judge(cases, impls, workdir: Path, per_shard=30):
         body = "\n".join(f"Eval vm_compute in (judge config_actual {class_flags_term(cases[j])} {coq_case(cases[j])} {impl_outcome(cases[j], impls[j])})." for j in chunk)
         shards.append(body)
         index.append(chunk)
-    outs = coq.eval_shards(workdir, HEADER, shards)
+    outs = eval_shards_th(workdir, shards, th or coq.TH)
     verdicts = [None] * len(cases)
     for chunk, out in zip(index, outs):
         if len(out) != len(chunk):
@@ -569,6 +623,79 @@ def boundary_cases():
     return out
 
 
+def level_cases():
+    """each documented guard (non-positive limit, wrong type) written at every level where the value can be written - top level of
+    the section / the block of the linted file's language - while the other level holds a valid value; every language of the
+    unit, carriers in rotation (incl. --config)"""
+    out, n = [], 0
+    carriers = ["yaml", "json", "pyproject", "dash"]
+    for unit, u in UNITS.items():
+        for opt in u.get("guarded", []):
+            if opt not in u.get("lang_over", []):
+                continue
+            metric, direction = [(mm, dd) for o, mm, dd in u["limits"] if o == opt][0]
+            for lang in u["langs"]:
+                for level in ("top", "block", "both"):
+                    for bad in (0, -1, "four"):
+                        m = {mm: METRIC_RANGE[mm][1] - 1 for _, mm, _ in u["limits"]}
+                        for _, mm in u.get("lists", []):
+                            m[mm] = MAGIC_VALUES[-1]
+                        good = 2 if direction > 0 else m[metric] + 2   # valid and reporting
+                        body = {opt: bad if level in ("top", "both") else good,
+                                lang: {opt: bad if level in ("block", "both") else good}}
+                        if not u.get("enabled_default", True):
+                            body["enabled"] = True
+                        carrier = carriers[n % 4]
+                        n += 1
+                        if carrier == "dash" and not u["cmd"]:
+                            carrier = "yaml"
+                        proj = {"yaml": None, "json": None, "pyproject": None, "dash": None}
+                        via = "api"
+                        if carrier == "dash":
+                            proj["dash"] = {"pos": "cmd", "suffix": ".yaml" if n % 8 < 4 else ".json", "file": {unit: body}}
+                            via = "cli"
+                        else:
+                            proj[carrier] = {unit: body}
+                        out.append({"i": f"level:{unit}:{lang}:{opt}:{level}:{bad}", "unit": unit, "lang": lang, "via": via, "metrics": m,
+                                    "proj": proj, "overrides": [], "fname": "case_src" + EXT[lang]})
+    return out
+
+
+def carrier_cases(seed: int):
+    """every pair and the triple of discovered carriers present at once with DISAGREEING contents (one silences the unit, one
+    makes it report, one sets a limit on the other side), plus a malformed file in each position"""
+    out = []
+    r = rng_for(seed, PROP, "carriers")
+    names = ["yaml", "json", "pyproject"]
+    combos = [("yaml", "json"), ("yaml", "pyproject"), ("json", "pyproject"), ("yaml", "json", "pyproject")]
+    for unit in ("nesting", "magic-numbers", "srp", "collection-pipeline", "lbyl"):
+        u = UNITS[unit]
+        lang = u["langs"][0]
+        fname = "case_src" + EXT[lang]
+        for combo in combos:
+            for variant in range(len(combo) + 2):
+                m = gen_metrics(r, unit)
+                for _, mm, _ in u.get("limits", []):
+                    m[mm] = METRIC_RANGE[mm][1] - 1
+                docs = [{unit: {"enabled": False}}, {unit: {"enabled": True}}, {spell(r, unit): {"enabled": True}, "ignore": [fname]}]
+                if u.get("limits"):
+                    opt, metric, direction = u["limits"][0]
+                    docs[1] = {unit: {opt: m[metric] + 3 * direction if m[metric] + 3 * direction > 0 else 1}}
+                proj = {"yaml": None, "json": None, "pyproject": None, "dash": None}
+                order = list(range(len(combo)))
+                order = order[variant % len(combo):] + order[:variant % len(combo)]
+                for pos, c in enumerate(combo):
+                    proj[c] = docs[order[pos] % 3]
+                tag = "agree"
+                if variant >= len(combo):
+                    bad = combo[0] if variant == len(combo) else combo[-1]   # malformed highest / lowest precedence carrier
+                    proj[bad] = UNPARSABLE
+                    tag = "malformed-" + bad
+                out.append({"i": f"carriers:{unit}:{'+'.join(combo)}:{variant}:{tag}", "unit": unit, "lang": lang,
+                            "via": "cli" if (len(out) % 3 == 0 and u["cmd"]) else "api", "metrics": m, "proj": proj, "overrides": [], "fname": fname})
+    return out
+
+
 # where each listed defect may show (necessary conditions on the abstract case): a failing case attributed to a flag
 # outside its declared class is a new defect, not the listed one
 def _winner(case):
@@ -600,6 +727,24 @@ def in_defect_class(flag: str, case: dict) -> bool:
         return case["unit"] == "dry" and dash is not None and dash["pos"] == "cmd"
     if flag == "pyproject_unparsable_swallowed":
         return p.get("pyproject") == UNPARSABLE
+    if flag in ("language_block_error_retried_without_language", "invalid_top_level_value_shadowed_by_language_block"):
+        u = UNITS[case["unit"]]
+        docs = [p.get("yaml"), p.get("json"), p.get("pyproject"), (dash or {}).get("file")]
+        for d in docs:
+            if not isinstance(d, dict):
+                continue
+            for k, sec in d.items():
+                if k.replace("-", "_") != case["unit"].replace("-", "_") or not isinstance(sec, dict):
+                    continue
+                blk = sec.get(case["lang"])
+                if not isinstance(blk, dict):
+                    continue
+                for opt in u.get("guarded", []):
+                    if flag.startswith("language_block") and isinstance(blk.get(opt), str):
+                        return True      # only a TypeError (string limit inside the block) triggers the retry
+                    if flag.startswith("invalid_top") and opt in blk and opt in sec and (isinstance(sec[opt], str) or sec[opt] <= 0):
+                        return True
+        return False
     if flag == "wrong_type_swallowed":
         docs = [p.get("yaml"), p.get("json"), p.get("pyproject"), (dash or {}).get("file")]
         return any(isinstance(v, str) for d in docs if isinstance(d, dict) for sec in d.values() if isinstance(sec, dict)
@@ -664,7 +809,8 @@ def run(tier: str, seed: int, replay: str | None = None) -> int:
         cases = [rep["violation"]["case"]] if "case" in rep.get("violation", {}) else []
     else:
         n_rand = (480 if tier == "quick" else 5200) * min(scale, 3)
-        cases = corpus_cases() + boundary_cases() + matrix_cases(seed, 0.45 if tier == "quick" else 1.0) + gen_cases(seed, n_rand)
+        cases = (corpus_cases() + boundary_cases() + level_cases() + carrier_cases(seed)
+                 + matrix_cases(seed, 0.45 if tier == "quick" else 1.0) + gen_cases(seed, n_rand))
         if tier == "quick":  # cap the number of CLI subprocesses: turn surplus option-free CLI cases into library runs
             budget = 200 * min(scale, 2)
             for c in cases:
@@ -674,58 +820,91 @@ def run(tier: str, seed: int, replay: str | None = None) -> int:
                     else:
                         c["via"] = "api"
     impls = pool_map(run_impl, cases, procs=8)
+    recorded_verdicts = None
     with scratch_dir("tv-c05-coq-") as wd:
         try:
-            verdicts = judge(cases, impls, wd)
+            verdicts = judge(cases, impls, wd / "a")
         except RuntimeError as e:
             chk.broken.append(f"Model:evaluation of the configuration model failed ({str(e)[:500]})")
             verdicts = [None] * len(cases)
-    cands_all = None
-    for case, impl, ver in zip(cases, impls, verdicts):
-        chk.count({k: case[k] for k in ("unit", "lang", "via", "metrics", "proj", "overrides")}, is_nontrivial(case))
-        chk.dist("unit:" + case["unit"])
-        chk.dist("via:" + case["via"])
-        p = case["proj"]
-        chk.dist("carriers:" + "+".join([k for k in ("yaml", "json", "pyproject") if p.get(k) is not None]
-                                        + ([f"dash-{p['dash']['pos']}{p['dash']['suffix']}"] if p.get("dash") else [])) or "carriers:none")
-        if case["overrides"]:
-            chk.dist("cli-override")
-        chk.sample({"case": {k: case[k] for k in ("unit", "lang", "via", "metrics", "proj", "overrides")}, "impl": {k: v for k, v in impl.items() if k != "failures"}}, 4)
-        if "error" in impl:
-            chk.violation({"reason": "the run neither produced a result document nor exit code 2", "detail": impl, "case": case})
-            continue
-        if ver is None:
-            continue
-        chk.traces_validated += 1
-        bits = [bool(b) for b in ver]
-        spec_ok, ideal_ok, cand, class_repairs = bits[0], bits[1], bits[2:-1], bits[-1]
-        cands_all = cand if cands_all is None else [a and b for a, b in zip(cands_all, cand)]
-        fails = impl.get("failures") or []
-        if fails and not (cand[0] and in_defect_class("wrong_type_swallowed", case)):
-            # (a swallowed TypeError is the listed wrong_type_swallowed defect when the case gives a limit as a string and the
-            # faithful model predicts the observed outcome; anything else is a rule crashing silently)
-            chk.violation({"reason": "a rule failed internally (swallowed exception) during the run", "failures": fails[:3], "case": case, "impl": impl})
-            continue
-        if spec_ok:
-            continue
-        info = {"reason": "exit status / number of violations differs from what the configuration demands", "impl": impl, "case": case,
-                "model_actual_matches_impl": cand[0], "model_ideal_matches_spec": ideal_ok}
-        # flags whose single removal changes the model's outcome on this case
-        relevant = [flags[i] for i in range(len(flags)) if not cand[1 + i]]
-        outside = [k for k in relevant if not in_defect_class(k, case)]
-        if cand[0] and ideal_ok and class_repairs and not outside and (relevant or class_flags(case)):
-            # explained by listed defects: the faithful model predicts the implementation, and switching off exactly the flags
-            # whose declared defect class contains the case makes the model meet the specification on it.  Reported: the flags
-            # that matter individually, or (several defects covering the input at once) all flags of the class
-            for k in relevant or class_flags(case):
-                chk.known_finding(k, {"case": {kk: case[kk] for kk in ("unit", "lang", "via", "metrics", "proj", "overrides")}, "impl": impl})
-        elif cand[0] and ideal_ok:
-            info["reason"] = ("the failure follows the mechanism of listed defects but lies outside their declared defect classes (flags that matter: "
-                              + ", ".join(relevant or ["<none alone>"]) + "; class of the case: " + ", ".join(class_flags(case) or ["<none>"])
-                              + "): a listed defect now affects inputs it did not affect before")
-            chk.violation(info)
-        else:
-            chk.violation(info)
+        if chk.broken:
+            # something no longer checks: also judge the whole stream against the layer recorded for the unchanged tree, purely
+            # to exhibit a concrete failing input (see recorded_layer_theories)
+            th = recorded_layer_theories(wd / "recorded")
+            if th is not None:
+                try:
+                    recorded_verdicts = judge(cases, impls, wd / "b", th=th)
+                    chk.notes.append("a proof obligation / generated item / the model no longer checks: cases were also judged with the generated "
+                                     "layer recorded for the unchanged tree (coq/Gen.expected/ConfigGen.v.txt) to search for a failing input")
+                except RuntimeError as e2:
+                    chk.notes.append(f"evaluation with the recorded generated layer failed too ({str(e2)[:200]})")
+
+    def decide(verdicts, first: bool, note: str = ""):
+        cands_all = None
+        for case, impl, ver in zip(cases, impls, verdicts):
+            if not first:
+                if ver is None or "error" in impl:
+                    continue
+                bits = [bool(b) for b in ver]
+                spec_ok, ideal_ok, cand, class_repairs = bits[0], bits[1], bits[2:-1], bits[-1]
+                if spec_ok:
+                    continue
+                relevant = [flags[i] for i in range(len(flags)) if not cand[1 + i]]
+                outside = [k for k in relevant if not in_defect_class(k, case)]
+                if cand[0] and ideal_ok and class_repairs and not outside and (relevant or class_flags(case)):
+                    continue  # a listed defect (already reported in the first pass when the current model could be evaluated)
+                chk.violation({"reason": "exit status / number of violations differs from what the configuration demands" + note,
+                               "impl": impl, "case": case, "model_actual_matches_impl": cand[0], "model_ideal_matches_spec": ideal_ok})
+                continue
+            chk.count({k: case[k] for k in ("unit", "lang", "via", "metrics", "proj", "overrides")}, is_nontrivial(case))
+            chk.dist("unit:" + case["unit"])
+            chk.dist("via:" + case["via"])
+            p = case["proj"]
+            chk.dist("carriers:" + "+".join([k for k in ("yaml", "json", "pyproject") if p.get(k) is not None]
+                                            + ([f"dash-{p['dash']['pos']}{p['dash']['suffix']}"] if p.get("dash") else [])) or "carriers:none")
+            if case["overrides"]:
+                chk.dist("cli-override")
+            chk.sample({"case": {k: case[k] for k in ("unit", "lang", "via", "metrics", "proj", "overrides")}, "impl": {k: v for k, v in impl.items() if k != "failures"}}, 4)
+            if "error" in impl:
+                chk.violation({"reason": "the run neither produced a result document nor exit code 2", "detail": impl, "case": case})
+                continue
+            if ver is None:
+                continue
+            chk.traces_validated += 1
+            bits = [bool(b) for b in ver]
+            spec_ok, ideal_ok, cand, class_repairs = bits[0], bits[1], bits[2:-1], bits[-1]
+            cands_all = cand if cands_all is None else [a and b for a, b in zip(cands_all, cand)]
+            fails = impl.get("failures") or []
+            if fails and not (cand[0] and in_defect_class("wrong_type_swallowed", case)):
+                # (a swallowed TypeError is the listed wrong_type_swallowed defect when the case gives a limit as a string and the
+                # faithful model predicts the observed outcome; anything else is a rule crashing silently)
+                chk.violation({"reason": "a rule failed internally (swallowed exception) during the run", "failures": fails[:3], "case": case, "impl": impl})
+                continue
+            if spec_ok:
+                continue
+            info = {"reason": "exit status / number of violations differs from what the configuration demands", "impl": impl, "case": case,
+                    "model_actual_matches_impl": cand[0], "model_ideal_matches_spec": ideal_ok}
+            # flags whose single removal changes the model's outcome on this case
+            relevant = [flags[i] for i in range(len(flags)) if not cand[1 + i]]
+            outside = [k for k in relevant if not in_defect_class(k, case)]
+            if cand[0] and ideal_ok and class_repairs and not outside and (relevant or class_flags(case)):
+                # explained by listed defects: the faithful model predicts the implementation, and switching off exactly the flags
+                # whose declared defect class contains the case makes the model meet the specification on it.  Reported: the flags
+                # that matter individually, or (several defects covering the input at once) all flags of the class
+                for k in relevant or class_flags(case):
+                    chk.known_finding(k, {"case": {kk: case[kk] for kk in ("unit", "lang", "via", "metrics", "proj", "overrides")}, "impl": impl})
+            elif cand[0] and ideal_ok:
+                info["reason"] = ("the failure follows the mechanism of listed defects but lies outside their declared defect classes (flags that matter: "
+                                  + ", ".join(relevant or ["<none alone>"]) + "; class of the case: " + ", ".join(class_flags(case) or ["<none>"])
+                                  + "): a listed defect now affects inputs it did not affect before")
+                chk.violation(info)
+            else:
+                chk.violation(info)
+        return cands_all
+
+    cands_all = decide(verdicts, True)
+    if recorded_verdicts is not None and not chk.violations:
+        decide(recorded_verdicts, False, " [judged with the last validated generated layer, coq/Gen.expected/ConfigGen.v.txt]")
     if cands_all is not None and not cands_all[0]:
         alt = [i for i, ok in enumerate(cands_all) if ok]
         if alt:
